@@ -100,17 +100,44 @@ Proof.
   rewrite filter_In, In_dedup, negb_true_iff, memZ_false. tauto.
 Qed.
 
-(* check_partition accepted => the nests are pairwise disjoint and disjoint from alone *)
+(* check_partition accepted => every nest lists each alternative once, the nests are pairwise
+   disjoint and disjoint from alone *)
 Theorem check_partition_spec n :
   check_partition n = true ->
+  (forall m, In m (nl_list n) -> NoDup (nn_alts m)) /\
   pairwise_disjoint (map nn_alts (nl_list n)) = true /\
   (forall m x, In m (nl_list n) -> In x (nn_alts m) -> ~ In x (nl_alone n)).
 Proof.
-  unfold check_partition, check_intersection. intros H.
-  apply andb_true_iff in H as [_ H]. apply andb_true_iff in H as [H1 H2]. split; [assumption|].
+  intros H. destruct (check_partition_inv _ H) as (Hnd & H1 & H2). split; [assumption|]. split; [assumption|].
   intros m x Hm Hx. rewrite forallb_forall in H1.
   assert (Hd : disjointZ (nn_alts m) (nl_alone n) = true) by (apply H1; now apply in_map).
   now apply (disjointZ_spec _ _ x Hd).
+Qed.
+
+(* a nest that repeats an alternative is refused (BiogemeError) by every nested-logit builder *)
+Theorem repeated_alternative_refused util av a :
+  (exists m, In m (nn_arg_nests a) /\ ~ NoDup (nn_alts m)) ->
+  (forall ch, lognested util av a ch = Err 1%Z /\ nested util av a ch = Err 1%Z) /\
+  (forall ch mu, lognested_mev_mu util av a ch mu = Err 1%Z /\ nested_mev_mu util av a ch mu = Err 1%Z) /\
+  get_mev_for_nested util av a = Err 1%Z /\
+  (forall mu, get_mev_for_nested_mu util av a mu = Err 1%Z) /\
+  (forall o, get_mev_generating_for_nested util av a o = Err 1%Z).
+Proof.
+  intros (m & Hm & Hdup).
+  assert (Hmk : (exists n, nl_make util a = Ok n /\ check_partition n = false) \/ nl_make util a = Err 1%Z).
+  { destruct (nl_make util a) as [n|k] eqn:En.
+    - left. exists n. split; [reflexivity|].
+      destruct (check_partition n) eqn:Ep; [|reflexivity]. exfalso.
+      destruct (check_partition_inv _ Ep) as (Hnd & _). apply Hdup, Hnd.
+      now rewrite (nl_make_list _ _ _ En).
+    - right. destruct a; simpl in En; unfold nests_init in En;
+        match type of En with context [subsetZ ?x ?y] => destruct (subsetZ x y) end; simpl in En; congruence. }
+  assert (Hg : forall n zd, check_partition n = false -> nl_guard util av n zd = Err 1%Z).
+  { intros n zd Hp. unfold nl_guard. now rewrite Hp. }
+  destruct Hmk as [(n & En & Hp)|En];
+    repeat split; intros;
+    unfold nested, lognested, nested_mev_mu, lognested_mev_mu, get_mev_for_nested, get_mev_for_nested_mu,
+      get_mev_generating_for_nested; rewrite En; simpl; rewrite ?(Hg n _ Hp); reflexivity.
 Qed.
 
 (* ------------------------------------------------------------------ ordered logit / probit *)
